@@ -188,3 +188,13 @@ Theorem Pem_panic_safe_needed :
   /\ (exists g l s e, Pem.NoPanicEx.unsafe_witness g l s e Pem.Model.PIndex).
 Proof. exact Pem.NoPanicEx.panic_safe_needed. Qed.
 Print Assumptions Pem_panic_safe_needed.
+
+(** Fuel: an answer of the interpreter other than "out of fuel" is the answer for every larger fuel
+    (every algorithm of the engine is monotone in the recursive matcher and in its loop fuel).  Step 1
+    of termination; a fuel bound itself is not proved (notes/C03.md). *)
+From Sq Require Pem.FuelMono.
+Theorem Pem_fuel_monotone : forall g toks rx fuel fuel' s e r,
+  (fuel <= fuel')%nat -> Pem.Model.parse_root g toks rx fuel s e = r -> r <> Pem.Model.RFuel ->
+  Pem.Model.parse_root g toks rx fuel' s e = r.
+Proof. exact Pem.FuelMono.parse_root_fuel_mono. Qed.
+Print Assumptions Pem_fuel_monotone.
